@@ -215,7 +215,7 @@ def toCtx : Sexp → Option (List (String × CV))
   | _ => none
 
 def showSt (id : String) (st : St) : String :=
-  let last := match st.pool.getLast? with | some v => encV v | none => "-"
+  let last := match st.pool.back? with | some v => encV v | none => "-"
   let tok := if decide (Clean st.out) then "clean" else "TAINTED-META"
   s!"{id}\tOK\t{last}\t{encStr st.out}\t{tok}"
 
